@@ -28,7 +28,7 @@ fn main() {
     let mut ctx = Ctx::from_args("C17");
     assert!(ser::modulus_is_bls_scalar());
     let (n_members, reps, kmax, all_pk, commit_cols) = match ctx.tier.as_str() {
-        "quick" => (5usize, 2usize, 6u32, false, 3usize),
+        "quick" => (10usize, 2usize, 7u32, false, 6usize),
         "thorough" => (48, 4, 10, true, 64),
         _ => (10, 3, 7, true, 4),
     };
